@@ -161,6 +161,12 @@ class JSONPointer:
                 if isinstance(key, str) and key.startswith("#"):
                     if not RE_CANONICAL_INT.match(key[1:]):
                         raise JSONPointerTypeError(f"{key}: {err}") from err
+                    # More digits than `len(obj)` has is out of range; `int()`
+                    # refuses very long digit strings with its own ValueError.
+                    if len(key) - 1 > len(str(len(obj))):
+                        raise JSONPointerIndexError(
+                            f"index out of range: {key[1:]}"
+                        ) from err
                     _index = int(key[1:])
                     if _index >= len(obj):
                         raise JSONPointerIndexError(
